@@ -561,15 +561,18 @@ func exprAsAssignmentConsumer(rootNode *RootAssertionNode, expr ast.Node, exprRH
 			case *ast.CallExpr:
 				// check if this is a call to a function by name
 				if ident := asthelper.FuncIdentFromCallExpr(expr); ident != nil {
-					obj := rootNode.ObjectOf(ident).(*types.Func)
-					if obj.Type().(*types.Signature).Results().Len() != 1 {
-						return nil, errors.New("multiply returning function treated as assignment consumer")
+					// A call through a variable, parameter or field of function type has no declared
+					// function whose result could be annotated: it is handled by its type below.
+					if obj, ok := rootNode.ObjectOf(ident).(*types.Func); ok {
+						if obj.Type().(*types.Signature).Results().Len() != 1 {
+							return nil, errors.New("multiply returning function treated as assignment consumer")
+						}
+						return &annotation.FuncRetAssignDeep{
+							TriggerIfDeepNonNil: &annotation.TriggerIfDeepNonNil{
+								Ann: annotation.RetKeyFromRetNum(obj, 0),
+							},
+						}, nil
 					}
-					return &annotation.FuncRetAssignDeep{
-						TriggerIfDeepNonNil: &annotation.TriggerIfDeepNonNil{
-							Ann: annotation.RetKeyFromRetNum(obj, 0),
-						},
-					}, nil
 				}
 			case *ast.IndexExpr:
 				return exprAsAssignmentConsumer(rootNode, expr.X, exprRHS)
